@@ -1125,6 +1125,29 @@ def install_reversed(I):
         return M_.instantiate(I_, st, list, args, kwargs, node)
     I.specs[("fn", id(list))] = lst
 
+    import types
+
+    def typ(I_, st, args, kwargs, node):
+        """type(x): a generator -> GeneratorType (no __reversed__ / __len__ / __getitem__); the opaque value of the
+        non-iterable scenario -> a class with none of the sequence / iteration methods"""
+        if len(args) == 1 and not kwargs:
+            x = args[0]
+            if isinstance(x, Ref) and isinstance(st.get(x), HIter):
+                return [(st, types.GeneratorType)]
+            if isinstance(x, Sym) and x.k == "obj":
+                return [(st, NotIterable)]
+        r = M_.instantiate(I_, st, type, args, kwargs, node)
+        if r is None:
+            raise Unsupported("type() in another shape", node)
+        return r
+
+    I.specs[("fn", id(type))] = typ
+    I.specs["iter_obj"] = lambda I_, st, args, kwargs, node: [(st, Raised(Exc(TypeError, ("object is not iterable",), origin=getattr(node, "lineno", None))))]
+
+
+class NotIterable:
+    """class of the opaque value in the `not iterable` scenario of do_reverse"""
+
 
 def sync_filter(name):
     """the sync function of filter `name`: the entry of FILTERS, or what an @async_variant wrapper wraps"""
@@ -1548,7 +1571,11 @@ class DictSort(RelVC):
     def p_call(self, pre, out):
         if self.by not in ("key", "value"):
             return out.raised and out.value.cls is FilterArgumentError and not A.calls(out, "sorted")
+        from collections import abc
         if out.raised:
+            # only a value that is not a mapping is refused (TypeError), before anything is called on it
+            if out.value.cls is TypeError and not A.calls(out, "sorted") and not A.calls(out, "method:items"):
+                return z3.Not(isinst_fn(abc.Mapping)(self.value.t))
             return False
         e = one(A.calls(out, "sorted"))
         it = one(A.calls(out, "method:items"))
@@ -1559,7 +1586,7 @@ class DictSort(RelVC):
             return False
         a, b, kv = out.st.ghost["probe"]
         x = (a if self.by == "key" else b).t
-        return to_term(kv, "obj") == z3.If(self.cs.t, x, LOWER(x))
+        return z3.And(isinst_fn(abc.Mapping)(self.value.t), to_term(kv, "obj") == z3.If(self.cs.t, x, LOWER(x)))
 
     posts = [("sorted_items_with_stated_key_and_reverse", p_call), ("frame", RelVC.p_frame)]
 
